@@ -68,6 +68,7 @@ func cmdJob(args []string) {
 	conc := fs.Bool("conc", false, "concurrency mode")
 	permute := fs.String("permute", "", "comma-separated functions whose map ranges are permuted")
 	maxPaths := fs.Int("maxpaths", 200000, "path cap")
+	preempt := fs.Int("preempt", 2, "preemption bound (concurrency mode)")
 	solver := fs.String("solver", "z3", "solver")
 	slog := fs.String("solverlog", "", "log solver input to file")
 	verbose := fs.Bool("v", false, "verbose")
@@ -91,6 +92,7 @@ func cmdJob(args []string) {
 	fmt.Fprintf(os.Stderr, "loaded in %s\n", prog.loadTime)
 	cfg := defaultConfig()
 	cfg.Concurrent = *conc
+	cfg.Preempt = *preempt
 	cfg.MaxPaths = *maxPaths
 	cfg.Solver = *solver
 	if *permute != "" {
